@@ -1950,7 +1950,8 @@ def c01_modal(inp):
                     if not (np.isnan(fn[j]) and np.isnan(xi[j]) and np.all(np.isnan(phi[j])) and np.isnan(lam_c[j])):
                         return {"reproduced": True, "detail": f"ac2mp_poly({meth}): a root with positive real part ({lam[k]:.4f}) is reported"}
                     continue
-                lk = lam[k] - (1 / (-(nxseg - 1) / np.log(0.01)) if meth == "cor" else 0)
+                # correlogram estimator: the exponential lag window (time constant tau samples = tau * dt seconds) added 1 / (tau dt) of decay
+                lk = lam[k] + (1 / ((-(nxseg - 1) / np.log(0.01)) * dt) if meth == "cor" else 0)
                 raw = Cm @ v[:, k]
                 want = raw / raw[np.argmax(np.abs(raw))]
                 if abs(fn[j] - abs(lk) / (2 * np.pi)) > 1e-9 * max(1, abs(lk)) or abs(xi[j] + lk.real / abs(lk)) > 1e-9 or abs(_mac1(phi[j], want) - 1) > 1e-9 \
@@ -2144,18 +2145,18 @@ def c17_factor(inp):
             vec = (lambda M: M.reshape(-1, order="F")) if colmajor else (lambda M: M.reshape(-1))
             return np.stack([(vec(hk if on_scale else hk / N) - vec(H)) / np.sqrt(nb * (nb - 1)) for hk in Hk], axis=1)
         ctx = f"l={l}, r={r}, br={br}, nb={nb}, Ndat={Nd}, trial {trial}"
-        if claim == "form":
-            if T.shape != build(False, False).shape or not np.allclose(T, build(False, False), rtol=1e-9, atol=1e-12):
-                return {"reproduced": True, "detail": f"build_hank's factor is no longer row-stacked vec(H_k/N - H)/sqrt(nb(nb-1)) ({ctx})"}
-        elif claim == "scale":
-            if not np.allclose(T, build(False, True), rtol=1e-9, atol=1e-12):
-                ratio = np.abs(build(False, True)).max() / max(np.abs(T).max(), 1e-300)
-                return {"reproduced": True, "detail": f"block estimates are H_k / N instead of H_k (N = {N}): the factor's Gram matrix is not the sample covariance of the mean "
-                                                      f"(max |T| = {np.abs(T).max():.3e}, expected {np.abs(build(False, True)).max():.3e}; {ctx})"}
-        elif claim == "vec":
-            if not np.allclose(T, build(True, False), rtol=1e-9, atol=1e-12):
-                return {"reproduced": True, "detail": f"deviations are stacked row by row (C order), not column by column ({ctx})"}
-    return {"reproduced": False, "detail": f"factor agrees with the '{claim}' form"}
+        want = build(True, True)          # the property's form: column-stacked deviations of block estimates on the scale of H
+        if T.shape != want.shape:
+            return {"reproduced": True, "detail": f"build_hank's factor has shape {T.shape}, expected {want.shape} ({ctx})"}
+        if claim == "scale" and not np.allclose(T, want, rtol=1e-9, atol=1e-12) and np.allclose(T, build(True, False), rtol=1e-9, atol=1e-12):
+            return {"reproduced": True, "detail": f"block estimates are H_k / N instead of H_k (N = {N}): the factor's Gram matrix is not the sample covariance of the mean "
+                                                  f"(max |T| = {np.abs(T).max():.3e}, expected {np.abs(want).max():.3e}; {ctx})"}
+        if claim == "vec" and not np.allclose(T, want, rtol=1e-9, atol=1e-12) and np.allclose(T, build(False, True), rtol=1e-9, atol=1e-12):
+            return {"reproduced": True, "detail": f"deviations are stacked row by row (C order), not column by column ({ctx})"}
+        if not np.allclose(T, want, rtol=1e-9, atol=1e-12):
+            return {"reproduced": True, "detail": f"build_hank's factor is not the column-stacked vec(H_k - H)/sqrt(nb(nb-1)) with H_k on the scale of H "
+                                                  f"(max |T - expected| = {np.abs(T - want).max():.3e}; {ctx})"}
+    return {"reproduced": False, "detail": "factor = column-stacked vec(H_k - H)/sqrt(nb(nb-1)), block estimates on the scale of H"}
 
 
 def c17_fd(inp):
